@@ -1,3 +1,704 @@
-import PybtexModel.Model.Interp
+/-
+C03 — BST style programs execute with BibTeX stack-language semantics.
+
+Property theorems only; helper lemmas are in `Lemmas/Interp.lean`, the model of the code in
+`Model/Interp.lean`, the vocabulary of the documented semantics (what the reader has to agree
+with) in `Spec/BstSem.lean`.
+
+Reading the statements: the documentation writes the stack top-last (`a b +`), the model keeps
+the top at the head of `St.stack`, so the documented operands `a b` are the stack
+`b :: a :: rest`.  `runBuiltin (f+1) b s` is one call of the built-in `b` with fuel `f` left for
+what it calls.  `{ s with stack := … }` on both sides of an equation is the frame condition:
+nothing but the named components changes.
+-/
+import PybtexModel.Lemmas.Interp
+import PybtexModel.Props.C12
+
 namespace Pybtex.Props
+open Pybtex Pybtex.Interp Pybtex.BstSem
+
+/-- an ill-typed operand `v` (hypothesis `hv : isX v = …`): the call is a Python `TypeError` -/
+local macro "ill1" : tactic => `(tactic| (intro v hv; cases v <;> first | exact ⟨_, rfl⟩ | cases hv))
+local macro "ill2" : tactic =>
+  `(tactic| (intro v w hv; cases v <;> first | (cases w <;> exact ⟨_, rfl⟩) | cases hv))
+
+/-- "pop from empty stack" -/
+private abbrev emptyStack : Except IErr St := .error (.bibtex "pop from empty stack")
+
+/-! ## 1. The built-in functions -/
+
+/-! ### arithmetic and comparison -/
+
+/-- `a b +` ↦ `a + b`; fewer than two operands: `BibTeXError`; a non-integer operand is a Python
+`TypeError` or (two strings) a concatenation — never an integer default. -/
+theorem C03_builtin_plus (f : Nat) (s : St) (a b : Int) (r : List Val) :
+    runBuiltin (f+1) .plus { s with stack := .int b :: .int a :: r } = .ok { s with stack := .int (a + b) :: r } ∧
+    runBuiltin (f+1) .plus { s with stack := [] } = emptyStack ∧
+    (∀ v, runBuiltin (f+1) .plus { s with stack := [v] } = emptyStack) ∧
+    (∀ v, isStr v = true → ∃ w, runBuiltin (f+1) .plus { s with stack := v :: .int a :: r } = .error (.internal w)) ∧
+    (∀ v, isStr v = true → ∃ w, runBuiltin (f+1) .plus { s with stack := .int b :: v :: r } = .error (.internal w)) ∧
+    (∀ v w, isExec v = true → ∃ e, runBuiltin (f+1) .plus { s with stack := v :: w :: r } = .error (.internal e)) ∧
+    (∀ v w, isExec v = true → ∃ e, runBuiltin (f+1) .plus { s with stack := w :: v :: r } = .error (.internal e)) := by
+  refine ⟨rfl, rfl, fun _ => rfl, ?_, ?_, ?_, ?_⟩
+  · ill1
+  · ill1
+  · ill2
+  · ill2
+
+/-- `a b -` ↦ `a − b` (in particular negative results are kept) -/
+theorem C03_builtin_minus (f : Nat) (s : St) (a b : Int) (r : List Val) :
+    runBuiltin (f+1) .minus { s with stack := .int b :: .int a :: r } = .ok { s with stack := .int (a - b) :: r } ∧
+    runBuiltin (f+1) .minus { s with stack := [] } = emptyStack ∧
+    runBuiltin (f+1) .minus { s with stack := [.int b] } = emptyStack ∧
+    (∀ v, isInt v = false → ∃ w, runBuiltin (f+1) .minus { s with stack := v :: r } = .error (.internal w)) ∧
+    (∀ v, isInt v = false → ∃ w, runBuiltin (f+1) .minus { s with stack := .int b :: v :: r } = .error (.internal w)) := by
+  refine ⟨rfl, rfl, rfl, ?_, ?_⟩
+  · ill1
+  · ill1
+
+/-- `x y *` ↦ the concatenation `x ++ y`; a missing field counts as the empty string -/
+theorem C03_builtin_concat (f : Nat) (s : St) (vx vy : Val) (x y : Str) (r : List Val)
+    (hx : valToStr vx = some x) (hy : valToStr vy = some y) :
+    runBuiltin (f+1) .mul { s with stack := vy :: vx :: r } = .ok { s with stack := .str (x ++ y) :: r } ∧
+    runBuiltin (f+1) .mul { s with stack := [] } = emptyStack ∧
+    runBuiltin (f+1) .mul { s with stack := [vy] } = emptyStack ∧
+    (∀ v, isExec v = true → ∃ e, runBuiltin (f+1) .mul { s with stack := v :: vx :: r } = .error (.internal e)) ∧
+    (∀ v, isExec v = true → ∃ e, runBuiltin (f+1) .mul { s with stack := vy :: v :: r } = .error (.internal e)) ∧
+    (∀ n, ∃ e, runBuiltin (f+1) .mul { s with stack := .int n :: vx :: r } = .error (.internal e)) ∧
+    (∀ n, ∃ e, runBuiltin (f+1) .mul { s with stack := vy :: .int n :: r } = .error (.internal e)) := by
+  rcases valToStr_cases hx with rfl | ⟨mx, rfl, rfl⟩ <;> rcases valToStr_cases hy with rfl | ⟨my, rfl, rfl⟩ <;>
+    refine ⟨rfl, rfl, rfl, ?_, ?_, fun _ => ⟨_, rfl⟩, fun _ => ⟨_, rfl⟩⟩ <;>
+    ill1
+
+/-- the pinned code implements `+` and `*` by the same Python operator -/
+theorem C03_builtin_plus_mul_same (f : Nat) (s : St) : runBuiltin (f+1) .plus s = runBuiltin (f+1) .mul s := rfl
+
+/-- `a b >` ↦ 1 if `a > b` else 0, `a b <` ↦ 1 if `a < b` else 0 (integers) -/
+theorem C03_builtin_gt_lt (f : Nat) (s : St) (a b : Int) (r : List Val) :
+    runBuiltin (f+1) .gt { s with stack := .int b :: .int a :: r } = .ok { s with stack := .int (if a > b then 1 else 0) :: r } ∧
+    runBuiltin (f+1) .lt { s with stack := .int b :: .int a :: r } = .ok { s with stack := .int (if a < b then 1 else 0) :: r } ∧
+    (∀ o, o = Builtin.gt ∨ o = Builtin.lt →
+      runBuiltin (f+1) o { s with stack := [] } = emptyStack ∧
+      (∀ v, runBuiltin (f+1) o { s with stack := [v] } = emptyStack) ∧
+      (∀ v, isStr v = true → ∃ w, runBuiltin (f+1) o { s with stack := v :: .int a :: r } = .error (.internal w)) ∧
+      (∀ v, isStr v = true → ∃ w, runBuiltin (f+1) o { s with stack := .int b :: v :: r } = .error (.internal w)) ∧
+      (∀ v w, isExec v = true → ∃ e, runBuiltin (f+1) o { s with stack := v :: w :: r } = .error (.internal e)) ∧
+      (∀ v w, isExec v = true → ∃ e, runBuiltin (f+1) o { s with stack := w :: v :: r } = .error (.internal e))) := by
+  refine ⟨rfl, rfl, ?_⟩
+  rintro o (rfl | rfl) <;> refine ⟨rfl, fun _ => rfl, ?_, ?_, ?_, ?_⟩
+  all_goals first | ill2 | ill1
+
+/-- on strings `<` and `>` compare by code-point lexicographic order (`C03_strLt_spec`) -/
+theorem C03_builtin_gt_lt_str (f : Nat) (s : St) (vx vy : Val) (x y : Str) (r : List Val)
+    (hx : valToStr vx = some x) (hy : valToStr vy = some y) :
+    runBuiltin (f+1) .gt { s with stack := vy :: vx :: r } = .ok { s with stack := .int (if strLt y x then 1 else 0) :: r } ∧
+    runBuiltin (f+1) .lt { s with stack := vy :: vx :: r } = .ok { s with stack := .int (if strLt x y then 1 else 0) :: r } := by
+  rcases valToStr_cases hx with rfl | ⟨mx, rfl, rfl⟩ <;> rcases valToStr_cases hy with rfl | ⟨my, rfl, rfl⟩ <;>
+    exact ⟨rfl, rfl⟩
+
+/-- `a b =` ↦ 1 if equal else 0, for two integers or two strings (a missing field equals the
+empty string); an integer never equals a string; comparing function values is outside the
+domain. -/
+theorem C03_builtin_eq (f : Nat) (s : St) (r : List Val) :
+    (∀ a b : Int, runBuiltin (f+1) .eq { s with stack := .int b :: .int a :: r } =
+        .ok { s with stack := .int (if a = b then 1 else 0) :: r }) ∧
+    (∀ vx vy x y, valToStr vx = some x → valToStr vy = some y →
+        runBuiltin (f+1) .eq { s with stack := vy :: vx :: r } = .ok { s with stack := .int (if x = y then 1 else 0) :: r }) ∧
+    (∀ (a : Int) v, isStr v = true →
+        runBuiltin (f+1) .eq { s with stack := v :: .int a :: r } = .ok { s with stack := .int 0 :: r } ∧
+        runBuiltin (f+1) .eq { s with stack := .int a :: v :: r } = .ok { s with stack := .int 0 :: r }) ∧
+    runBuiltin (f+1) .eq { s with stack := [] } = emptyStack ∧
+    (∀ v, runBuiltin (f+1) .eq { s with stack := [v] } = emptyStack) ∧
+    (∀ v w, isExec v = true → ∃ e, runBuiltin (f+1) .eq { s with stack := v :: w :: r } = .error (.internal e)) ∧
+    (∀ v w, isExec v = true → ∃ e, runBuiltin (f+1) .eq { s with stack := w :: v :: r } = .error (.internal e)) := by
+  refine ⟨?_, ?_, ?_, rfl, fun _ => rfl, ?_, ?_⟩
+  · intro a b
+    show Except.ok { s with stack := .int (if decide (a = b) = true then 1 else 0) :: r } = _
+    by_cases h : a = b <;> simp [h]
+  · intro vx vy x y hx hy
+    rcases valToStr_cases hx with rfl | ⟨mx, rfl, rfl⟩ <;> rcases valToStr_cases hy with rfl | ⟨my, rfl, rfl⟩
+    all_goals
+      show Except.ok { s with stack := .int (if decide (_ = _) = true then 1 else 0) :: r } = _
+    · by_cases h : x = y <;> simp [h]
+    · by_cases h : x = [] <;> simp [h]
+    · by_cases h : [] = y <;> simp [h]
+    · rfl
+  · intro a v hv
+    cases v <;> first | exact ⟨rfl, rfl⟩ | cases hv
+  · ill2
+  · ill2
+
+/-! ### assignment -/
+
+/-- `v 'name :=` for a global integer variable: the variable holds `v` afterwards, nothing else
+changes; a value of the wrong type is a Python `ValueError`. -/
+theorem C03_builtin_assign_global_int (f : Nat) (s : St) (name : Str) (old n : Int) (r : List Val)
+    (hv : s.vars.getItem name = some (.gint old)) :
+    runBuiltin (f+1) .assign { s with stack := .ref name :: .int n :: r } =
+      .ok { s with stack := r, vars := s.vars.setItem name (.gint n) } ∧
+    (∀ v, isInt v = false → ∃ e, runBuiltin (f+1) .assign { s with stack := .ref name :: v :: r } = .error (.internal e)) := by
+  constructor
+  · simp only [runBuiltin, pop, hv]
+  · intro v h; cases v <;> first | (simp only [runBuiltin, pop, hv]; exact ⟨_, rfl⟩) | cases h
+
+/-- `v 'name :=` for a global string variable (a missing field is stored as such) -/
+theorem C03_builtin_assign_global_str (f : Nat) (s : St) (name : Str) (old v : Val) (r : List Val)
+    (hv : s.vars.getItem name = some (.gstr old)) :
+    (isStr v = true → runBuiltin (f+1) .assign { s with stack := .ref name :: v :: r } =
+      .ok { s with stack := r, vars := s.vars.setItem name (.gstr v) }) ∧
+    (isStr v = false → ∃ e, runBuiltin (f+1) .assign { s with stack := .ref name :: v :: r } = .error (.internal e)) := by
+  constructor
+  · intro h; cases v <;> first | (simp only [runBuiltin, pop, hv]; done) | cases h
+  · intro h; cases v <;> first | (simp only [runBuiltin, pop, hv]; exact ⟨_, rfl⟩) | cases h
+
+/-- `v 'name :=` for an entry integer variable: written into the frame of the current entry -/
+theorem C03_builtin_assign_entry_int (f : Nat) (s : St) (name en : Str) (n : Int) (r : List Val) (k : Str)
+    (hv : s.vars.getItem name = some (.eint en)) (hk : s.cur = some k) :
+    runBuiltin (f+1) .assign { s with stack := .ref name :: .int n :: r } =
+      .ok (setEntryVar { s with stack := r } k en (.int n)) ∧
+    (∀ v, isInt v = false → ∃ e, runBuiltin (f+1) .assign { s with stack := .ref name :: v :: r } = .error (.internal e)) := by
+  constructor
+  · simp only [runBuiltin, pop, hv, hk]
+  · intro v h; cases v <;> first | (simp only [runBuiltin, pop, hv, hk]; exact ⟨_, rfl⟩) | cases h
+
+/-- `v 'name :=` for an entry string variable (`sort.key$`, `label`, …) -/
+theorem C03_builtin_assign_entry_str (f : Nat) (s : St) (name en : Str) (v : Val) (r : List Val) (k : Str)
+    (hv : s.vars.getItem name = some (.estr en)) (hk : s.cur = some k) :
+    (isStr v = true → runBuiltin (f+1) .assign { s with stack := .ref name :: v :: r } =
+      .ok (setEntryVar { s with stack := r } k en v)) ∧
+    (isStr v = false → ∃ e, runBuiltin (f+1) .assign { s with stack := .ref name :: v :: r } = .error (.internal e)) := by
+  constructor
+  · intro h; cases v <;> first | (simp only [runBuiltin, pop, hv, hk]; done) | cases h
+  · intro h; cases v <;> first | (simp only [runBuiltin, pop, hv, hk]; exact ⟨_, rfl⟩) | cases h
+
+/-- `:=` with too few operands, or whose top operand is not a quoted variable, or that names a
+function / field / built-in: an error, never an assignment -/
+theorem C03_builtin_assign_errors (f : Nat) (s : St) (r : List Val) :
+    runBuiltin (f+1) .assign { s with stack := [] } = emptyStack ∧
+    (∀ v, runBuiltin (f+1) .assign { s with stack := [v] } = emptyStack) ∧
+    (∀ v w, (∀ n, v ≠ .ref n) → ∃ e, runBuiltin (f+1) .assign { s with stack := v :: w :: r } = .error (.internal e)) ∧
+    (∀ name w o, s.vars.getItem name = some o → (∀ x, o ≠ .gint x) → (∀ x, o ≠ .gstr x) → (∀ x, o ≠ .eint x) →
+        (∀ x, o ≠ .estr x) → ∃ e, runBuiltin (f+1) .assign { s with stack := .ref name :: w :: r } = .error (.internal e)) := by
+  refine ⟨rfl, fun _ => rfl, ?_, ?_⟩
+  · intro v w h
+    cases v with
+    | ref n => exact absurd rfl (h n)
+    | _ => exact ⟨_, rfl⟩
+  · intro name w o ho h1 h2 h3 h4
+    cases o with
+    | gint x => exact absurd rfl (h1 x)
+    | gstr x => exact absurd rfl (h2 x)
+    | eint x => exact absurd rfl (h3 x)
+    | estr x => exact absurd rfl (h4 x)
+    | _ => (simp only [runBuiltin, pop, ho]; exact ⟨_, rfl⟩)
+
+/-! ### stack manipulation -/
+
+/-- `duplicate$`, `pop$`, `swap$`, `skip$`, `quote$` do what their names say, for values of any
+type; on a too short stack they raise `BibTeXError`. -/
+theorem C03_builtin_stack_ops (f : Nat) (s : St) (v w : Val) (r : List Val) :
+    runBuiltin (f+1) .duplicate { s with stack := v :: r } = .ok { s with stack := v :: v :: r } ∧
+    runBuiltin (f+1) .pop { s with stack := v :: r } = .ok { s with stack := r } ∧
+    runBuiltin (f+1) .swap { s with stack := w :: v :: r } = .ok { s with stack := v :: w :: r } ∧
+    runBuiltin (f+1) .skip s = .ok s ∧
+    runBuiltin (f+1) .quote s = .ok { s with stack := .str ['"'] :: s.stack } ∧
+    runBuiltin (f+1) .duplicate { s with stack := [] } = emptyStack ∧
+    runBuiltin (f+1) .pop { s with stack := [] } = emptyStack ∧
+    runBuiltin (f+1) .swap { s with stack := [] } = emptyStack ∧
+    runBuiltin (f+1) .swap { s with stack := [v] } = emptyStack :=
+  ⟨rfl, rfl, rfl, rfl, rfl, rfl, rfl, rfl, rfl⟩
+
+/-! ### tests -/
+
+/-- `empty$`: 1 if the string is missing, empty or consists of white space only, else 0 -/
+theorem C03_builtin_empty (f : Nat) (s : St) (v : Val) (x : Str) (r : List Val) (hx : valToStr v = some x) :
+    runBuiltin (f+1) .empty { s with stack := v :: r } = .ok { s with stack := .int (if Blank x then 1 else 0) :: r } ∧
+    runBuiltin (f+1) .empty { s with stack := [] } = emptyStack ∧
+    (∀ v, isStr v = false → ∃ e, runBuiltin (f+1) .empty { s with stack := v :: r } = .error (.internal e)) := by
+  have key : ∀ x : Str, (if x ≠ [] ∧ (!isBlank x) = true then (0 : Int) else 1) = if Blank x then 1 else 0 := by
+    intro x
+    have hb : isBlank x = true ↔ Blank x := by simp [isBlank, Blank]
+    by_cases h : Blank x
+    · rw [if_pos h, if_neg]; simp [hb.2 h]
+    · rw [if_neg h, if_pos]
+      refine ⟨?_, ?_⟩
+      · rintro rfl; exact h (fun _ hc => nomatch hc)
+      · cases hh : isBlank x
+        · rfl
+        · exact absurd (hb.1 hh) h
+  refine ⟨?_, rfl, ?_⟩
+  · rcases valToStr_cases hx with rfl | ⟨m, rfl, rfl⟩
+    · show Except.ok { s with stack := .int (if x ≠ [] ∧ (!isBlank x) = true then 0 else 1) :: r } = _
+      rw [key]
+    · show Except.ok { s with stack := .int (if ([] : Str) ≠ [] ∧ (!isBlank []) = true then 0 else 1) :: r } = _
+      rw [key]
+  · ill1
+
+/-- `missing$`: 1 exactly for a missing field (which is otherwise an empty string), else 0 -/
+theorem C03_builtin_missing (f : Nat) (s : St) (r : List Val) :
+    (∀ m, runBuiltin (f+1) .missing { s with stack := .missing m :: r } = .ok { s with stack := .int 1 :: r }) ∧
+    (∀ v, (∀ m, v ≠ .missing m) → runBuiltin (f+1) .missing { s with stack := v :: r } = .ok { s with stack := .int 0 :: r }) ∧
+    runBuiltin (f+1) .missing { s with stack := [] } = emptyStack := by
+  refine ⟨fun _ => rfl, ?_, rfl⟩
+  intro v h
+  cases v with
+  | missing m => exact absurd rfl (h m)
+  | _ => rfl
+
+/-! ### conversions -/
+
+/-- `chr.to.int$`: the code point of a one-character string; any other length is a `BibTeXError` -/
+theorem C03_builtin_chr_to_int (f : Nat) (s : St) (r : List Val) :
+    (∀ c, runBuiltin (f+1) .chrToInt { s with stack := .str [c] :: r } = .ok { s with stack := .int c.toNat :: r }) ∧
+    (∀ v x, valToStr v = some x → x.length ≠ 1 →
+      runBuiltin (f+1) .chrToInt { s with stack := v :: r } = .error (.bibtex "passed to chr.to.int$")) ∧
+    runBuiltin (f+1) .chrToInt { s with stack := [] } = emptyStack ∧
+    (∀ v, isStr v = false → ∃ e, runBuiltin (f+1) .chrToInt { s with stack := v :: r } = .error (.internal e)) := by
+  refine ⟨fun _ => rfl, ?_, rfl, ?_⟩
+  · intro v x hx hl
+    rcases valToStr_cases hx with rfl | ⟨m, rfl, rfl⟩
+    · match x, hl with
+      | [], _ => rfl
+      | [_], hl => exact absurd rfl hl
+      | _ :: _ :: _, _ => rfl
+    · rfl
+  · ill1
+
+/-- `int.to.chr$`: the one-character string with that code point for `0 ≤ n < 0x110000`,
+a `BibTeXError` outside this range -/
+theorem C03_builtin_int_to_chr (f : Nat) (s : St) (n : Int) (r : List Val) :
+    (0 ≤ n ∧ n < 0x110000 → runBuiltin (f+1) .intToChr { s with stack := .int n :: r } =
+        .ok { s with stack := .str [Char.ofNat n.toNat] :: r }) ∧
+    (¬ (0 ≤ n ∧ n < 0x110000) → runBuiltin (f+1) .intToChr { s with stack := .int n :: r } =
+        .error (.bibtex "passed to int.to.chr$")) ∧
+    runBuiltin (f+1) .intToChr { s with stack := [] } = emptyStack ∧
+    (∀ v, isInt v = false → ∃ e, runBuiltin (f+1) .intToChr { s with stack := v :: r } = .error (.internal e)) := by
+  refine ⟨?_, ?_, rfl, ?_⟩
+  · intro h
+    show (if 0 ≤ n ∧ n < 0x110000 then _ else _) = _
+    rw [if_pos h]; rfl
+  · intro h
+    show (if 0 ≤ n ∧ n < 0x110000 then _ else _) = _
+    rw [if_neg h]
+  · ill1
+
+/-- `int.to.str$`: the decimal representation (`-` sign for negative numbers) -/
+theorem C03_builtin_int_to_str (f : Nat) (s : St) (n : Int) (r : List Val) :
+    runBuiltin (f+1) .intToStr { s with stack := .int n :: r } = .ok { s with stack := .str (toString n).toList :: r } ∧
+    runBuiltin (f+1) .intToStr { s with stack := [] } = emptyStack ∧
+    (∀ v, isExec v = true → ∃ e, runBuiltin (f+1) .intToStr { s with stack := v :: r } = .error (.internal e)) := by
+  refine ⟨rfl, rfl, ?_⟩
+  ill1
+
+/-! ### the current entry -/
+
+/-- `cite$` pushes the key of the current entry as spelled in the citation list, `type$` its
+(lower-cased, as stored) entry type, `preamble$` the concatenated `@preamble`s of the database -/
+theorem C03_builtin_cite_type_preamble (f : Nat) (s : St) (k : Str) (e : Pybtex.Entry) (db : BibData) :
+    (s.cur = some k → runBuiltin (f+1) .cite s = .ok { s with stack := .str k :: s.stack }) ∧
+    (s.cur = some k → s.db = some db → db.entries.getItem k = some e →
+      runBuiltin (f+1) .type_ s = .ok { s with stack := .str e.type :: s.stack }) ∧
+    (s.db = some db → runBuiltin (f+1) .preamble s = .ok { s with stack := .str s.preamble :: s.stack }) ∧
+    (s.cur = none → (∃ w, runBuiltin (f+1) .cite s = .error (.internal w)) ∧
+      (∃ w, runBuiltin (f+1) .type_ s = .error (.internal w))) := by
+  refine ⟨?_, ?_, ?_, ?_⟩
+  · intro h; simp only [runBuiltin, h, push]
+  · intro h1 h2 h3; simp only [runBuiltin, curEntry, h1, h2, h3, push]
+  · intro h; simp only [runBuiltin, h, push]
+  · intro h; constructor
+    · simp only [runBuiltin, h]; exact ⟨_, rfl⟩
+    · simp only [runBuiltin, curEntry, h]; exact ⟨_, rfl⟩
+
+/-! ### output -/
+
+/-- `write$` appends its operand to the output buffer (nothing is emitted yet) -/
+theorem C03_builtin_write (f : Nat) (s : St) (v : Val) (x : Str) (r : List Val) (hx : valToStr v = some x) :
+    runBuiltin (f+1) .write { s with stack := v :: r } = .ok { s with stack := r, buffer := s.buffer ++ [x] } ∧
+    runBuiltin (f+1) .write { s with stack := [] } = emptyStack ∧
+    (∀ v, isStr v = false → ∃ e, runBuiltin (f+1) .write { s with stack := v :: r } = .error (.internal e)) := by
+  refine ⟨?_, rfl, ?_⟩
+  · rcases valToStr_cases hx with rfl | ⟨m, rfl, rfl⟩ <;> rfl
+  · ill1
+
+/-- `newline$` emits the buffered text, wrapped (C19: `wrap(·, 79, "  ")`), and a line feed, and
+clears the buffer; the stack is not touched -/
+theorem C03_builtin_newline (f : Nat) (s : St) :
+    runBuiltin (f+1) .newline s =
+      .ok { s with lines := s.lines ++ [Wrap.wrapDefault s.buffer.flatten, ['\n']], buffer := [] } := rfl
+
+/-- `warning$` reports its operand as a warning; `top$` pops and prints one value; `stack$`
+pops and prints the whole stack, top first -/
+theorem C03_builtin_warning_top_stack (f : Nat) (s : St) (r : List Val) :
+    (∀ v x, valToStr v = some x →
+      runBuiltin (f+1) .warning { s with stack := v :: r } = .ok { s with stack := r, reports := s.reports ++ [.warning x] }) ∧
+    (∀ n, runBuiltin (f+1) .top { s with stack := .int n :: r } =
+      .ok { s with stack := r, printed := s.printed ++ [(toString n).toList] }) ∧
+    (∀ v x, valToStr v = some x →
+      runBuiltin (f+1) .top { s with stack := v :: r } = .ok { s with stack := r, printed := s.printed ++ [x] }) ∧
+    runBuiltin (f+1) .stack { s with stack := [] } = .ok { s with stack := [] } ∧
+    (∀ vs : List Val, (∀ v ∈ vs, isExec v = false) → runBuiltin (f+1) .stack { s with stack := vs } =
+      .ok { s with stack := [], printed := s.printed ++ vs.map shown }) ∧
+    runBuiltin (f+1) .warning { s with stack := [] } = emptyStack ∧
+    runBuiltin (f+1) .top { s with stack := [] } = emptyStack ∧
+    (∀ v, isStr v = false → ∃ e, runBuiltin (f+1) .warning { s with stack := v :: r } = .error (.internal e)) ∧
+    (∀ v, isExec v = true → ∃ e, runBuiltin (f+1) .top { s with stack := v :: r } = .error (.internal e)) ∧
+    (∀ v, isExec v = true → ∃ e, runBuiltin (f+1) .stack { s with stack := v :: r } = .error (.internal e)) := by
+  refine ⟨?_, fun _ => rfl, ?_, ?_, ?_, rfl, rfl, ?_, ?_, ?_⟩
+  · intro v x hx; rcases valToStr_cases hx with rfl | ⟨m, rfl, rfl⟩ <;> rfl
+  · intro v x hx; rcases valToStr_cases hx with rfl | ⟨m, rfl, rfl⟩ <;> rfl
+  · show Except.ok { s with stack := [], printed := s.printed ++ [] } = _
+    rw [List.append_nil]
+  · intro vs hvs
+    show (match runBuiltin.printAll vs with | some l => _ | none => _) = _
+    rw [printAll_eq vs hvs]
+  · ill1
+  · ill1
+  · ill1
+
+/-! ### string functions (delegating to the models of C12, C11) -/
+
+/-- `s start len substring$` is `bibtexSubstring` = the documented `Spec.substring` (C12), for all
+integer arguments -/
+theorem C03_builtin_substring (f : Nat) (s : St) (v : Val) (x : Str) (start len : Int) (r : List Val)
+    (hx : valToStr v = some x) :
+    runBuiltin (f+1) .substring { s with stack := .int len :: .int start :: v :: r } =
+      .ok { s with stack := .str (Spec.substring x start len) :: r } ∧
+    runBuiltin (f+1) .substring { s with stack := [] } = emptyStack ∧
+    runBuiltin (f+1) .substring { s with stack := [.int len] } = emptyStack ∧
+    runBuiltin (f+1) .substring { s with stack := [.int len, .int start] } = emptyStack ∧
+    (∀ w, isInt w = false → ∃ e, runBuiltin (f+1) .substring { s with stack := w :: r } = .error (.internal e)) ∧
+    (∀ w, isInt w = false → ∃ e, runBuiltin (f+1) .substring { s with stack := .int len :: w :: r } = .error (.internal e)) ∧
+    (∀ w, isStr w = false → ∃ e, runBuiltin (f+1) .substring { s with stack := .int len :: .int start :: w :: r } = .error (.internal e)) := by
+  refine ⟨?_, rfl, rfl, rfl, ?_, ?_, ?_⟩
+  · rw [← C12_substring_spec]
+    rcases valToStr_cases hx with rfl | ⟨m, rfl, rfl⟩ <;> rfl
+  · ill1
+  · ill1
+  · ill1
+
+/-- `s text.length$` ↦ `bibtexLen s` (C12: braces not counted, a special character counts one) -/
+theorem C03_builtin_text_length (f : Nat) (s : St) (v : Val) (x : Str) (r : List Val) (hx : valToStr v = some x) :
+    runBuiltin (f+1) .textLength { s with stack := v :: r } =
+      (match bibtexLen x with
+       | some n => .ok { s with stack := .int n :: r }
+       | none => .error (.bibtex "too many nested braces")) ∧
+    runBuiltin (f+1) .textLength { s with stack := [] } = emptyStack ∧
+    (∀ w, isStr w = false → ∃ e, runBuiltin (f+1) .textLength { s with stack := w :: r } = .error (.internal e)) := by
+  refine ⟨?_, rfl, ?_⟩
+  · have key : ∀ y : Str, runBuiltin (f+1) .textLength { s with stack := .str y :: r } =
+        (match bibtexLen y with | some n => .ok { s with stack := .int n :: r } | none => .error (.bibtex "too many nested braces")) := by
+      intro y
+      show (match bibtexLen y with | none => _ | some n => _) = _
+      cases bibtexLen y <;> rfl
+    rcases valToStr_cases hx with rfl | ⟨m, rfl, rfl⟩
+    · exact key x
+    · exact key []
+  · ill1
+
+/-- `s n text.prefix$` ↦ `bibtexPrefix s n` (C12) -/
+theorem C03_builtin_text_prefix (f : Nat) (s : St) (v : Val) (x : Str) (n : Int) (r : List Val)
+    (hx : valToStr v = some x) :
+    runBuiltin (f+1) .textPrefix { s with stack := .int n :: v :: r } =
+      (match bibtexPrefix x n with
+       | some p => .ok { s with stack := .str p :: r }
+       | none => .error (.bibtex "too many nested braces")) ∧
+    runBuiltin (f+1) .textPrefix { s with stack := [] } = emptyStack ∧
+    runBuiltin (f+1) .textPrefix { s with stack := [.int n] } = emptyStack ∧
+    (∀ w, isInt w = false → ∃ e, runBuiltin (f+1) .textPrefix { s with stack := w :: r } = .error (.internal e)) ∧
+    (∀ w, isStr w = false → ∃ e, runBuiltin (f+1) .textPrefix { s with stack := .int n :: w :: r } = .error (.internal e)) := by
+  refine ⟨?_, rfl, rfl, ?_, ?_⟩
+  · have key : ∀ y : Str, runBuiltin (f+1) .textPrefix { s with stack := .int n :: .str y :: r } =
+        (match bibtexPrefix y n with | some n => .ok { s with stack := .str n :: r } | none => .error (.bibtex "too many nested braces")) := by
+      intro y
+      show (match bibtexPrefix y n with | none => _ | some n => _) = _
+      cases bibtexPrefix y n <;> rfl
+    rcases valToStr_cases hx with rfl | ⟨m, rfl, rfl⟩
+    · exact key x
+    · exact key []
+  · ill1
+  · ill1
+
+/-- corollary with C12: for `n ≥ 0` the pushed prefix has text length `min n (text length of s)`,
+and for `n ≤ 0` it is empty -/
+theorem C03_builtin_text_prefix_spec (f : Nat) (s s' : St) (x : Str) (n : Int) (m : Nat) (r : List Val)
+    (hm : bibtexLen x = some m)
+    (h : runBuiltin (f+1) .textPrefix { s with stack := .int n :: .str x :: r } = .ok s') :
+    ∃ p, s' = { s with stack := .str p :: r } ∧ bibtexPrefix x n = some p ∧
+      (0 ≤ n → bibtexLen p = some (min n.toNat m)) ∧ (n ≤ 0 → p = []) := by
+  have h0 := (C03_builtin_text_prefix f s (.str x) x n r rfl).1
+  rw [h0] at h
+  cases hp : bibtexPrefix x n with
+  | none => rw [hp] at h; cases h
+  | some p =>
+    rw [hp] at h
+    refine ⟨p, by cases h; rfl, rfl, fun hn => C12_prefix_len x p n m hn hp hm, fun hn => ?_⟩
+    have := C12_prefix_nonpos x n hn
+    rw [hp] at this; cases this; rfl
+
+/-- `s purify$` ↦ `bibtexPurify s`, `s width$` ↦ `bibtexWidth` over the regenerated width table,
+`s num.names$` ↦ the number of names separated by top-level " and " -/
+theorem C03_builtin_purify_width_num_names (f : Nat) (s : St) (v : Val) (x : Str) (r : List Val)
+    (hx : valToStr v = some x) :
+    runBuiltin (f+1) .purify { s with stack := v :: r } =
+      (match bibtexPurify x with
+       | some p => .ok { s with stack := .str p :: r }
+       | none => .error (.bibtex "too many nested braces")) ∧
+    runBuiltin (f+1) .width { s with stack := v :: r } =
+      (match bibtexWidthStd x with
+       | some w => .ok { s with stack := .int w :: r }
+       | none => .error (.bibtex "too many nested braces")) ∧
+    runBuiltin (f+1) .numNames { s with stack := v :: r } = .ok { s with stack := .int (splitNameList x).length :: r } ∧
+    (∀ o, o = Builtin.purify ∨ o = Builtin.width ∨ o = Builtin.numNames →
+      runBuiltin (f+1) o { s with stack := [] } = emptyStack ∧
+      (∀ w, isStr w = false → ∃ e, runBuiltin (f+1) o { s with stack := w :: r } = .error (.internal e))) := by
+  refine ⟨?_, ?_, ?_, ?_⟩
+  · have key : ∀ y : Str, runBuiltin (f+1) .purify { s with stack := .str y :: r } =
+        (match bibtexPurify y with | some n => .ok { s with stack := .str n :: r } | none => .error (.bibtex "too many nested braces")) := by
+      intro y
+      show (match bibtexPurify y with | none => _ | some n => _) = _
+      cases bibtexPurify y <;> rfl
+    rcases valToStr_cases hx with rfl | ⟨m, rfl, rfl⟩
+    · exact key x
+    · exact key []
+  · have key : ∀ y : Str, runBuiltin (f+1) .width { s with stack := .str y :: r } =
+        (match bibtexWidthStd y with | some n => .ok { s with stack := .int n :: r } | none => .error (.bibtex "too many nested braces")) := by
+      intro y
+      show (match bibtexWidthStd y with | none => _ | some n => _) = _
+      cases bibtexWidthStd y <;> rfl
+    rcases valToStr_cases hx with rfl | ⟨m, rfl, rfl⟩
+    · exact key x
+    · exact key []
+  · rcases valToStr_cases hx with rfl | ⟨m, rfl, rfl⟩ <;> rfl
+  · rintro o (rfl | rfl | rfl) <;> exact ⟨rfl, by ill1⟩
+
+/-- corollary with C12: a purified string consists of letters, digits and blanks only -/
+theorem C03_builtin_purify_spec (f : Nat) (s s' : St) (x : Str) (r : List Val)
+    (h : runBuiltin (f+1) .purify { s with stack := .str x :: r } = .ok s') :
+    ∃ p, s' = { s with stack := .str p :: r } ∧ (∀ c ∈ p, isAlnum c = true ∨ c = ' ') ∧ bibtexPurify p = some p := by
+  have h0 := (C03_builtin_purify_width_num_names f s (.str x) x r rfl).1
+  rw [h0] at h
+  cases hp : bibtexPurify x with
+  | none => rw [hp] at h; cases h
+  | some p =>
+    rw [hp] at h
+    exact ⟨p, by cases h; rfl, C12_purify_range x p hp, C12_purify_idem x p hp⟩
+
+/-- `s mode change.case$`: the conversion is selected by the first character of `mode`,
+lower-cased (`t`, `l`, `u`); an empty mode and any other letter are `BibTeXError`s -/
+theorem C03_builtin_change_case (f : Nat) (s : St) (vm vx : Val) (x : Str) (r : List Val)
+    (hx : valToStr vx = some x) :
+    (∀ c m md, valToStr vm = some (c :: m) → caseModeOf (lowerC c) = some md →
+      runBuiltin (f+1) .changeCase { s with stack := vm :: vx :: r } =
+        (match changeCase x md with
+         | some y => .ok { s with stack := .str y :: r }
+         | none => .error (.bibtex "too many nested braces"))) ∧
+    (∀ c m, valToStr vm = some (c :: m) → caseModeOf (lowerC c) = none →
+      runBuiltin (f+1) .changeCase { s with stack := vm :: vx :: r } = .error (.bibtex "incorrect change.case$ mode")) ∧
+    (valToStr vm = some [] →
+      runBuiltin (f+1) .changeCase { s with stack := vm :: vx :: r } = .error (.bibtex "empty mode string passed to change.case$")) ∧
+    runBuiltin (f+1) .changeCase { s with stack := [] } = emptyStack ∧
+    (isStr vm = true → runBuiltin (f+1) .changeCase { s with stack := [vm] } = emptyStack) ∧
+    (∀ w, isStr w = false → ∃ e, runBuiltin (f+1) .changeCase { s with stack := w :: r } = .error (.internal e)) ∧
+    (isStr vm = true → ∀ w, isStr w = false → ∃ e, runBuiltin (f+1) .changeCase { s with stack := vm :: w :: r } = .error (.internal e)) := by
+  have step : ∀ mode : Str, valToStr vm = some mode →
+      runBuiltin (f+1) .changeCase { s with stack := vm :: vx :: r } =
+        (match mode with
+          | [] => .error (.bibtex "empty mode string passed to change.case$")
+          | c :: _ =>
+            match caseModeOf (lowerC c) with
+            | none => .error (.bibtex "incorrect change.case$ mode")
+            | some m =>
+              match changeCase x m with
+              | none => .error tooDeep
+              | some y => .ok { s with stack := .str y :: r }) := by
+    intro mode hm
+    rcases valToStr_cases hm with rfl | ⟨mm, rfl, rfl⟩ <;> rcases valToStr_cases hx with rfl | ⟨mx, rfl, rfl⟩ <;> rfl
+  refine ⟨?_, ?_, ?_, rfl, ?_, ?_, ?_⟩
+  · intro c m md hm hmd
+    rw [step _ hm]; simp only [hmd]
+    cases changeCase x md <;> rfl
+  · intro c m hm hmd
+    rw [step _ hm]; simp only [hmd]
+  · intro hm; rw [step _ hm]
+  · intro h; cases vm <;> first | rfl | cases h
+  · ill1
+  · intro _ w hw; cases vm <;> cases w <;> first | exact ⟨_, rfl⟩ | cases hw
+
+/-- `add.period$` appends a period unless the string is empty or its last character other than a
+closing brace is `.`, `?` or `!`; a string of closing braces only gets the period (as in
+BibTeX); a missing field stays a missing field.  The three shapes cover every string. -/
+theorem C03_builtin_add_period (f : Nat) (s : St) (r : List Val) :
+    (∀ x, runBuiltin (f+1) .addPeriod { s with stack := .str x :: r } = .ok { s with stack := .str (addPeriod x) :: r }) ∧
+    (∀ m, runBuiltin (f+1) .addPeriod { s with stack := .missing m :: r } = .ok { s with stack := .missing m :: r }) ∧
+    addPeriod [] = [] ∧
+    (∀ core c k, c ≠ '}' → addPeriod (core ++ c :: List.replicate k '}') =
+      if EndsSentence c then core ++ c :: List.replicate k '}' else core ++ c :: List.replicate k '}' ++ ['.']) ∧
+    (∀ k, addPeriod (List.replicate (k + 1) '}') = List.replicate (k + 1) '}' ++ ['.']) ∧
+    runBuiltin (f+1) .addPeriod { s with stack := [] } = emptyStack ∧
+    (∀ v, isStr v = false → ∃ e, runBuiltin (f+1) .addPeriod { s with stack := v :: r } = .error (.internal e)) := by
+  refine ⟨fun _ => rfl, fun _ => rfl, rfl, addPeriod_core, addPeriod_braces, rfl, ?_⟩
+  ill1
+
+/-- `names n fmt format.name$`: the `n`-th (from 1) name of the " and "-separated list, formatted
+by `formatName` (C11); a name number outside `1 .. count` gives a warning and the empty string;
+a malformed format string is a (fatal) syntax error; a name with too many commas is reported. -/
+theorem C03_builtin_format_name (f : Nat) (s : St) (vn vf : Val) (names fmt : Str) (n : Int) (r : List Val)
+    (hn : valToStr vn = some names) (hf : valToStr vf = some fmt) :
+    (∀ name out tooMany, 1 ≤ n → (splitNameList names)[(n - 1).toNat]? = some name →
+      formatName name fmt = .ok (out, tooMany) →
+      runBuiltin (f+1) .formatName { s with stack := vf :: .int n :: vn :: r } =
+        .ok { s with stack := .str out :: r,
+                     reports := if tooMany then s.reports ++ [.invalidName (strip name)] else s.reports }) ∧
+    (∀ name e, 1 ≤ n → (splitNameList names)[(n - 1).toNat]? = some name → formatName name fmt = .error e →
+      runBuiltin (f+1) .formatName { s with stack := vf :: .int n :: vn :: r } = .error (fmtErrToIErr e)) ∧
+    (n < 1 ∨ n > (splitNameList names).length →
+      runBuiltin (f+1) .formatName { s with stack := vf :: .int n :: vn :: r } =
+        .ok { s with stack := .str [] :: r,
+                     reports := s.reports ++ [.warning ("there is no name number ".toList ++ (toString n).toList ++
+                        " in \"".toList ++ names ++ "\"".toList)] }) ∧
+    runBuiltin (f+1) .formatName { s with stack := [] } = emptyStack ∧
+    runBuiltin (f+1) .formatName { s with stack := [vf] } = emptyStack ∧
+    runBuiltin (f+1) .formatName { s with stack := [vf, .int n] } = emptyStack ∧
+    (∀ w, isStr w = false → ∃ e, runBuiltin (f+1) .formatName { s with stack := w :: r } = .error (.internal e)) ∧
+    (∀ w, isInt w = false → ∃ e, runBuiltin (f+1) .formatName { s with stack := vf :: w :: r } = .error (.internal e)) ∧
+    (∀ w, isStr w = false → ∃ e, runBuiltin (f+1) .formatName { s with stack := vf :: .int n :: w :: r } = .error (.internal e)) := by
+  have step : runBuiltin (f+1) .formatName { s with stack := vf :: .int n :: vn :: r } =
+      (if n < 1 ∨ n > (splitNameList names).length then
+        .ok (push (warn { s with stack := r } ("there is no name number ".toList ++ intToStr n ++ " in \"".toList ++ names ++ "\"".toList)) (.str []))
+      else
+        match pyIndex (splitNameList names) (n - 1) with
+        | none => .error (.internal "IndexError: format.name$")
+        | some name =>
+          match formatName name fmt with
+          | .error e => .error (fmtErrToIErr e)
+          | .ok (out, tooMany) =>
+            .ok (push (if tooMany then { s with stack := r, reports := s.reports ++ [.invalidName (strip name)] } else { s with stack := r }) (.str out))) := by
+    rcases valToStr_cases hn with rfl | ⟨mn, rfl, rfl⟩ <;> rcases valToStr_cases hf with rfl | ⟨mf, rfl, rfl⟩ <;> rfl
+  have hlen : ∀ name, 1 ≤ n → (splitNameList names)[(n - 1).toNat]? = some name →
+      ¬ (n < 1 ∨ n > (splitNameList names).length) ∧ pyIndex (splitNameList names) (n - 1) = some name := by
+    intro name h1 hnm
+    have hlt : (n - 1).toNat < (splitNameList names).length := by
+      rcases Nat.lt_or_ge (n - 1).toNat (splitNameList names).length with h | h
+      · exact h
+      · rw [List.getElem?_eq_none h] at hnm; cases hnm
+    have h2 : n ≤ (splitNameList names).length := by omega
+    exact ⟨by omega, by rw [pyIndex_pos _ _ h1 h2, hnm]⟩
+  refine ⟨?_, ?_, ?_, rfl, ?_, ?_, ?_, ?_, ?_⟩
+  · intro name out tooMany h1 hnm hfm
+    obtain ⟨hr, hp⟩ := hlen name h1 hnm
+    rw [step, if_neg hr, hp]; simp only [hfm]
+    cases tooMany <;> rfl
+  · intro name e h1 hnm hfm
+    obtain ⟨hr, hp⟩ := hlen name h1 hnm
+    rw [step, if_neg hr, hp]; simp only [hfm]
+  · intro h; rw [step, if_pos h]; rfl
+  · rcases valToStr_cases hf with rfl | ⟨mf, rfl, rfl⟩ <;> rfl
+  · rcases valToStr_cases hf with rfl | ⟨mf, rfl, rfl⟩ <;> rfl
+  · ill1
+  · rcases valToStr_cases hf with rfl | ⟨mf, rfl, rfl⟩ <;> ill1
+  · rcases valToStr_cases hf with rfl | ⟨mf, rfl, rfl⟩ <;> ill1
+
+/-- `call.type$` executes the function named like the type of the current entry; for a type the
+style does not define it reports `entry type for "<key>" isn't style-file defined` and executes
+`default.type` if the style defines one (and does nothing otherwise). -/
+theorem C03_builtin_call_type (f : Nat) (s : St) (k : Str) (e : Pybtex.Entry) (db : BibData)
+    (hk : s.cur = some k) (hdb : s.db = some db) (he : db.entries.getItem k = some e) :
+    (∀ o, s.vars.getItem e.type = some o → runBuiltin (f+1) .callType s = execObj f o s) ∧
+    (s.vars.getItem e.type = none →
+      let s' := { s with reports := s.reports ++
+        [.warning ("entry type for \"".toList ++ k ++ "\" isn't style-file defined".toList)] }
+      (∀ o, s.vars.getItem "default.type".toList = some o → runBuiltin (f+1) .callType s = execObj f o s') ∧
+      (s.vars.getItem "default.type".toList = none → runBuiltin (f+1) .callType s = .ok s')) := by
+  have hc : curEntry s = .ok (k, e, db) := by simp only [curEntry, hk, hdb, he]
+  refine ⟨?_, ?_⟩
+  · intro o ho; simp only [runBuiltin, hc, ho]
+  · intro hn
+    refine ⟨?_, ?_⟩
+    · intro o ho; simp only [runBuiltin, hc, hn, warn, ho]
+    · intro ho; simp only [runBuiltin, hc, hn, warn, ho]
+
+/-! ## 2. Control flow, fuel, determinism -/
+
+/-- `p f₂ f₁ if$` (the documentation's `p then else if$`): executes `f₂` if `p > 0`, else `f₁`,
+on the stack below the three operands -/
+theorem C03_if (f : Nat) (s : St) (p : Int) (f1 f2 : Val) (r : List Val) :
+    runBuiltin (f+1) .if_ { s with stack := f1 :: f2 :: .int p :: r } =
+      execVal f (if p > 0 then f2 else f1) { s with stack := r } ∧
+    runBuiltin (f+1) .if_ { s with stack := [] } = emptyStack ∧
+    runBuiltin (f+1) .if_ { s with stack := [f1] } = emptyStack ∧
+    runBuiltin (f+1) .if_ { s with stack := [f1, f2] } = emptyStack ∧
+    (∀ v, isInt v = false → ∃ e, runBuiltin (f+1) .if_ { s with stack := f1 :: f2 :: v :: r } = .error (.internal e)) ∧
+    (∀ v, isExec v = false → ∃ e, execVal (f+1) v s = .error (.internal e)) := by
+  refine ⟨?_, rfl, rfl, rfl, ?_, ?_⟩
+  · show (if p > 0 then execVal f f2 _ else execVal f f1 _) = _
+    by_cases h : p > 0 <;> simp only [h, if_true, if_false]
+  · ill1
+  · ill1
+
+/-- If a run with fuel `n` has finished (with a state or with an error other than "out of
+fuel"), every larger amount of fuel gives the same result — for all six mutually recursive
+functions of the interpreter. -/
+theorem C03_fuel_mono (n m : Nat) (h : n ≤ m) :
+    (∀ v s, Finished (execVal n v s) → execVal m v s = execVal n v s) ∧
+    (∀ o s, Finished (execObj n o s) → execObj m o s = execObj n o s) ∧
+    (∀ t s, Finished (execTok n t s) → execTok m t s = execTok n t s) ∧
+    (∀ b s, Finished (execBody n b s) → execBody m b s = execBody n b s) ∧
+    (∀ p f s, Finished (whileLoop n p f s) → whileLoop m p f s = whileLoop n p f s) ∧
+    (∀ b s, Finished (runBuiltin n b s) → runBuiltin m b s = runBuiltin n b s) :=
+  fuel_mono_all n m h
+
+/-- the hypothesis of `C03_fuel_mono` is satisfiable: `#1 #2 +` finishes with fuel 6 (and does
+not with fuel 5) -/
+theorem C03_fuel_mono_nonvacuous :
+    (execBody 6 [.int 1, .int 2, .name "+".toList] { vars := initVars }).toOption.map (·.stack.length) = some 1 ∧
+    (execBody 5 [.int 1, .int 2, .name "+".toList] { vars := initVars }).toOption.map (·.stack.length) = none := by
+  decide +kernel
+
+/-- The result of a run does not depend on the fuel: two finished runs of the same code from the
+same state agree (the interpreter is a function; so is the language). -/
+theorem C03_deterministic :
+    (∀ v s s1 s2, EvalVal v s s1 → EvalVal v s s2 → s1 = s2) ∧
+    (∀ o s s1 s2, EvalObj o s s1 → EvalObj o s s2 → s1 = s2) ∧
+    (∀ b s s1 s2, EvalBody b s s1 → EvalBody b s s2 → s1 = s2) ∧
+    (∀ p f s s1 s2, EvalWhile p f s s1 → EvalWhile p f s s2 → s1 = s2) ∧
+    (∀ b s s1 s2, EvalBuiltin b s s1 → EvalBuiltin b s s2 → s1 = s2) ∧
+    (∀ n m b s r1 r2, execBody n b s = r1 → execBody m b s = r2 → Finished r1 → Finished r2 → r1 = r2) := by
+  refine ⟨?_, ?_, ?_, ?_, ?_, ?_⟩
+  · rintro v s s1 s2 ⟨n, h1⟩ ⟨m, h2⟩
+    exact Except.ok.inj ((evalVal_mono h1 (Nat.le_max_left n m)).symm.trans (evalVal_mono h2 (Nat.le_max_right n m)))
+  · rintro v s s1 s2 ⟨n, h1⟩ ⟨m, h2⟩
+    exact Except.ok.inj ((evalObj_mono h1 (Nat.le_max_left n m)).symm.trans (evalObj_mono h2 (Nat.le_max_right n m)))
+  · rintro v s s1 s2 ⟨n, h1⟩ ⟨m, h2⟩
+    exact Except.ok.inj ((evalBody_mono h1 (Nat.le_max_left n m)).symm.trans (evalBody_mono h2 (Nat.le_max_right n m)))
+  · rintro p f s s1 s2 ⟨n, h1⟩ ⟨m, h2⟩
+    exact Except.ok.inj ((evalWhile_mono h1 (Nat.le_max_left n m)).symm.trans (evalWhile_mono h2 (Nat.le_max_right n m)))
+  · rintro v s s1 s2 ⟨n, h1⟩ ⟨m, h2⟩
+    exact Except.ok.inj ((evalBuiltin_mono h1 (Nat.le_max_left n m)).symm.trans (evalBuiltin_mono h2 (Nat.le_max_right n m)))
+  · rintro n m b s r1 r2 rfl rfl h1 h2
+    rw [← (fuel_mono_all n (max n m) (Nat.le_max_left n m)).2.2.2.1 b s h1,
+        ← (fuel_mono_all m (max n m) (Nat.le_max_right n m)).2.2.2.1 b s h2]
+
+/-- `p f while$`: "execute `p`; pop an integer; if it is `≤ 0` stop, else execute `f` and
+repeat".  (1) the one-step equation with explicit fuel, (2) the fuel-free unfolding law. -/
+theorem C03_while_unfold (p f : Val) :
+    (∀ n (s : St) r, runBuiltin (n+1) .while_ { s with stack := f :: p :: r } = whileLoop n p f { s with stack := r }) ∧
+    (∀ n s, whileLoop (n+1) p f s =
+      match execVal n p s with
+      | .error e => .error e
+      | .ok s1 =>
+        match popInt s1 with
+        | .error e => .error e
+        | .ok (k, s2) =>
+          if k ≤ 0 then .ok s2
+          else match execVal n f s2 with
+            | .error e => .error e
+            | .ok s3 => whileLoop n p f s3) ∧
+    (∀ (s : St) s' r, EvalBuiltin .while_ { s with stack := f :: p :: r } s' ↔ EvalWhile p f { s with stack := r } s') ∧
+    (∀ s s', EvalWhile p f s s' ↔
+      ∃ s1 k s2, EvalVal p s s1 ∧ popInt s1 = .ok (k, s2) ∧
+        ((k ≤ 0 ∧ s' = s2) ∨ (0 < k ∧ ∃ s3, EvalVal f s2 s3 ∧ EvalWhile p f s3 s'))) ∧
+    (∀ n (s : St), runBuiltin (n+1) .while_ { s with stack := [] } = emptyStack ∧
+            runBuiltin (n+1) .while_ { s with stack := [f] } = emptyStack) :=
+  ⟨fun _ _ _ => rfl, fun _ _ => rfl, evalBuiltin_while p f, evalWhile_unfold p f, fun _ _ => ⟨rfl, rfl⟩⟩
+
 end Pybtex.Props
